@@ -97,3 +97,28 @@ def judge_oneshot_return_states(tag="0"):
                              % (form, {k: np.asarray(v).tolist() for k, v in got.items()} if isinstance(got, dict) else "a bare array"), sc,
                              {k: v.tolist() for k, v in vals.items()}, None))
     return out[:1]
+
+
+def judge_call_iterable_forms(tag="0"):
+    """single-step Model.call with return_states given as a tuple / set / dict keys / frozenset of node names: exactly the named nodes' states, keyed by name"""
+    out = []
+    x = np.array([[0.5, -1.25]])
+    for form_name, mkform in (("tuple", tuple), ("set", set), ("frozenset", frozenset), ("dict_keys", lambda l: dict.fromkeys(l).keys())):
+        sc = {"kind": "call-iterable-forms", "form": form_name, "tag": tag}
+        mk = _mk("%sc%s" % (tag, form_name[0] + form_name[-1]))
+        a, b, c = mk("a", 2.0, 1.0), mk("b", 0.5, -1.0), mk("c", 3.0, 0.25)
+        try:
+            m = a >> b >> c
+            m.run(np.zeros((1, 2)))
+            names = [a.name, b.name]
+            got = m.call(x, return_states=mkform(names))
+        except Exception as e:  # noqa: BLE001
+            out.append(_viol("return_states:iterable-form:call", "Model.call(return_states=<%s of two node names>) raises %r" % (form_name, e), sc))
+            continue
+        va = 2.0 * x + 1.0
+        vals = {a.name: va, b.name: 0.5 * va - 1.0}
+        ok = isinstance(got, dict) and sorted(got) == sorted(vals) and all(np.allclose(got[k], vals[k]) for k in vals)
+        if not ok:
+            out.append(_viol("return_states:iterable-form:call", "Model.call(return_states=<%s of two node names>) does not return exactly those nodes' states (got %s)"
+                             % (form_name, sorted(got) if isinstance(got, dict) else "a bare array"), sc, sorted(vals), sorted(got) if isinstance(got, dict) else None))
+    return out[:1]
